@@ -3,7 +3,7 @@
     after the repairs `fix: indexserver cleanup: tombstone unassigned repos in compound shards even when
     they also have simple shards` and `fix: indexserver cleanup: keep compound shards that still serve
     other repositories when shard merging is disabled`).  Proofs: Proofs/CleanupProofs.v. *)
-From ZV Require Import Lib.Base Model.Cleanup Proofs.CleanupProofs Proofs.CleanupUnassigned Proofs.CleanupTrash Proofs.CleanupRevive Proofs.CleanupRestore.
+From ZV Require Import Lib.Base Model.Cleanup Proofs.CleanupProofs Proofs.CleanupUnassigned Proofs.CleanupTrash Proofs.CleanupRevive Proofs.CleanupRestore Proofs.CleanupFailure.
 Open Scope Z_scope.
 
 (** assigned_kept (FULL).  For every well-formed index directory, every assigned list, every time and both
@@ -39,6 +39,30 @@ Theorem C32_assigned_kept_before_fix_refuted :
 Proof. exact assigned_kept_before_fix_refuted. Qed.
 Print Assumptions C32_assigned_kept_before_fix_refuted.
 
+(** ---- moveAll's failure fallback.  [cleanup_f d repos now sm mvfail]: the same cleanup in which the os.Rename of
+    shard file b into the index ([mvfail true b]) or into the trash ([mvfail false b]) fails; moveAll then removes
+    what it had already moved for that repository and every shard it was still asked to move ("failed to move shard,
+    deleting all shards").  Without failures it IS [cleanup]; with ANY failures the two safety clauses survive:
+    assigned repositories keep every indexed shard, and no unassigned repository stays searchable. *)
+Theorem C32_no_failure_is_cleanup : forall d repos now sm,
+  cleanup_f d repos now sm (fun _ _ => false) = cleanup d repos now sm.
+Proof. exact cleanup_f_nofail. Qed.
+Print Assumptions C32_no_failure_is_cleanup.
+
+Theorem C32_assigned_kept_any_rename_failure : forall d repos now sm mvfail f e r,
+  wf d -> In f (d_index d) -> In e (alive_entries f) -> e_id e = r ->
+  In r repos -> consistent (group (get_shards (d_index d)) r) = true ->
+  exists f', In f' (d_index (cleanup_f d repos now sm mvfail)) /\ f_base f' = f_base f /\
+             f_compound f' = f_compound f /\ proj r f' = proj r f.
+Proof. intros. eapply assigned_kept_any_failure; eauto. Qed.
+Print Assumptions C32_assigned_kept_any_rename_failure.
+
+Theorem C32_unassigned_not_searchable_any_rename_failure : forall d repos now sm mvfail id,
+  wf d -> wf_trash d -> ~ In id repos ->
+  forall g e, In g (d_index (cleanup_f d repos now sm mvfail)) -> In e (alive_entries g) -> e_id e <> id.
+Proof. intros d repos now sm mvfail id H1 H2 H3. exact (unassigned_not_alive_after_any_failure d repos now sm mvfail id H1 H2 H3). Qed.
+Print Assumptions C32_unassigned_not_searchable_any_rename_failure.
+
 (** unassigned_not_searchable_after: for every well-formed directory, every assigned set and both settings
     of shardMerging, no repository outside the assigned set is alive in any index shard after cleanup
     (it was trashed, tombstoned, or deleted; nothing revived it). *)
@@ -58,6 +82,16 @@ Theorem C32_assigned_untombstoned : forall d repos now id,
   exists b, tomb_pick (tomb_candidates (d_index d) id) = Some b /\ alive_at b id (cleanup d repos now true).
 Proof. intros. eapply assigned_untombstoned; eauto. Qed.
 Print Assumptions C32_assigned_untombstoned.
+
+(** both modes: the same, provided no renamed repository (same id, several names) is alive in the selected shard;
+    without that proviso and shardMerging = false it is refuted below *)
+Theorem C32_assigned_untombstoned_any_mode : forall d repos now sm id,
+  wf d -> In id repos -> ~ In id (ids_of (ix d)) -> ~ In id (trash_keys d now) -> In id (tomb_ids (d_index d)) ->
+  (forall b, tomb_pick (tomb_candidates (d_index d) id) = Some b ->
+     forall s i, In s (group (ix d) i) -> s_base s = b -> consistent (group (ix d) i) = true) ->
+  exists b, tomb_pick (tomb_candidates (d_index d) id) = Some b /\ alive_at b id (cleanup d repos now sm).
+Proof. intros. eapply assigned_untombstoned_any; eauto. Qed.
+Print Assumptions C32_assigned_untombstoned_any_mode.
 
 Theorem C32_assigned_untombstoned_no_merging_refuted :
   exists d repos now id,
@@ -202,3 +236,11 @@ Proof.
   split; [vm_compute; auto|]. split; [reflexivity|]. split; [reflexivity|].
   simpl. intros g Hg. repeat (destruct Hg as [<-|Hg]; [discriminate|]). contradiction.
 Qed.
+
+(* a failing rename while restoring repository 8 (shard 6) drops it from index and trash; repository 1 is untouched;
+   a failing rename while trashing repository 2 (shard 1) deletes that shard instead *)
+Example ex_big_rename_failures :
+  let x := cleanup_f ex_big ex_repos 0 true (fun ti b => if ti then N.eqb b 6 else N.eqb b 1) in
+  map f_base (d_index x) = [0; 4]%N /\ map f_base (d_trash x) = [7]%N /\
+  cleanup_f ex_big ex_repos 0 true (fun _ _ => false) = cleanup ex_big ex_repos 0 true.
+Proof. vm_compute. repeat split; reflexivity. Qed.
